@@ -432,6 +432,10 @@ def run(chk):
     chk.rule('C08.M', 'model immutability (effect analysis over model-derived objects in runtime.py and model.py)', floor=8)
     chk.rule('C08.A', 'argument list handed to function values is fresh and never None', floor=1)
     chk.assumptions += ['models are schema-valid; host functions do not retain references to model parts (they only receive evaluated values)']
+    from .c01 import check_programs
+    chk.rule('C01.P', 'shared with C01: whole parsed programs evaluated (E9r): a function statement binds a global function when it executes (not before, again under another body later), '
+             'return ends the script or function, jumps stay inside their statement list', floor=150)
+    chk.guard('C01.P', check_programs, chk, 'C01.P', False)
     chk.guard('C08.X', check_dispatch, chk)
     chk.guard('C08.E', check_step, chk)
     _pc_rule(chk)
